@@ -13,7 +13,7 @@ sys.path.insert(0, os.path.join(HERE, "..", "mirsym"))
 import z3
 import vcommon as V
 from vcommon import log
-import mir, sym, opcheck as Q, modkernels as M
+import mir, sym, opcheck as Q, modkernels as M, scopekernels as S
 
 PROGRAMS = {
     # a imports b and c, c imports b again, a imports a name from b: b's code runs once, everyone shares b's list
@@ -25,6 +25,21 @@ PROGRAMS = {
     "repeated": ({"a.ms": 'import b\nimport n from b\nimport m from b\nprint n\nprint m\nprint b.n\nprint "done"\n',
                   "b.ms": 'print "init b"\nexport n: int = 5\nexport m: int = 6\n'},
                  ["init b", "5", "6", "5", "done"]),
+    # a module without any export, imported along two paths and directly: still initialised once
+    "no-exports": ({"a.ms": 'print "a1"\nimport left\nimport right\nimport audit\nprint left.l() + right.r()\n',
+                    "left.ms": 'import audit\nexport l: fn() -> int = fn() -> int {\n\treturn 1\n}\n',
+                    "right.ms": 'import audit\nexport r: fn() -> int = fn() -> int {\n\treturn 2\n}\n',
+                    "audit.ms": 'print "audit: init"\n'},
+                   ["a1", "audit: init", "3"]),
+    # importers see the exporter's LIVE variable, not a snapshot taken at export time
+    "live-export": ({"a.ms": 'import b\nprint b.count\nb.bump()\nb.bump()\nprint b.count\nimport c\nprint c.seen()\n',
+                     "b.ms": 'export count: int = 0\nexport bump: fn() = fn() {\n\tmodify count = count + 1\n}\n',
+                     "c.ms": 'import b\nexport seen: fn() -> int = fn() -> int {\n\treturn b.count\n}\n'},
+                    ["0", "2", "2"]),
+    # an import that binds only a type still initialises the module, at that point
+    "type-only": ({"a.ms": 'print "a1"\nimport type Celsius from units\nprint "a2"\nt: Celsius = 21\nprint t\n',
+                   "units.ms": 'print "units: init"\nexport type Celsius int\nexport offset: int = 1\n'},
+                  ["a1", "units: init", "a2", "21"]),
     # order: imports run depth-first in import order, each completing before the importer continues
     "order": ({"a.ms": 'print "a1"\nimport b\nprint "a2"\nimport c\nprint "a3"\n',
                "b.ms": 'print "b1"\nimport c\nprint "b2"\nexport x: int = 1\n',
@@ -102,7 +117,14 @@ def check(scratch, a, t0):
                 bad += [(profile,) + b for b in M.check_import(mk, cached, n, profile, qs, timeout_ms, V.seed())]
         for n in range(3):
             bad += [(profile,) + b for b in M.check_entry(mk, n, profile, qs, timeout_ms, V.seed())]
-        info["models"][profile] = sorted(mk.ex.stats["models_used"])
+        # `export_name`: the export table receives the variable's own cell (what makes state shared across importers)
+        sk = S.ScopeKernels(mk.mf, oc, scratch.repo, seed=V.seed())
+        info["functions"][profile].update({"instruction export_name": sk.encoded_functions()["export_name"]})
+        for sh in S.shapes(a.tier):
+            run = S.run_export(sk, sh)
+            for cls, detail, model in S.judge(sk, run, profile, qs, timeout_ms, V.seed()):
+                bad.append((profile, cls, detail, "export_name," + run.arm))
+        info["models"][profile] = sorted(set(mk.ex.stats["models_used"]) | set(sk.ex.stats["models_used"]))
         log("  [%s] %d obligations so far, %d candidate findings" % (profile, qs.obligations, len(bad)))
     deviations = []
     for release in ([False, True] if a.tier == "thorough" else [False]):
